@@ -16,7 +16,8 @@ RULE = ("Abstract feature trees (1-2 (quick) / 1-3 (thorough) items per containe
         "the reference interpreter (vlib/refrun.py). Non-trivial = distinct (program, config, fault) whose reference "
         "verdict is decided by exactly one mechanism, or passes although something is skipped/de-selected/pending-under-wip. "
         "A subset is re-run through behave.__main__.main() on real files and through `python -m behave` (exit code).")
-ASSUMPTIONS = ["KeyboardInterrupt raised inside a hook is outside the quantifier and not injected",
+ASSUMPTIONS = ["a ModelRunner object whose run was aborted is not reused (it stays aborted); reuse after every other kind of run is covered",
+               "KeyboardInterrupt raised inside a hook is outside the quantifier and not injected",
                "exit-code mapping is checked on a subset (one program per outcome class), not on every run"]
 
 
@@ -72,6 +73,100 @@ def run_case(case):
     nt = (cls, digest(case)) if cls else None
     return {"v": v, "nt": nt, "out": (obs["verdict"], cls, case[1] if isinstance(case[1], str) else "cfg"),
             "dg": (obs["verdict"], obs["escaped"], sorted(obs["status"].items()))}
+
+
+# ---- one runner object used for several runs (ModelRunner.run_model(features=...)) ---------------------------
+REUSE_FEATURES = {
+    "pass": P.F((P.S(("pass", "pass")),)),
+    "undef": P.F((P.S(("pass", "undefined")), P.S(("pass",)))),
+    "fail": P.F((P.S(("fail",)), P.S(("pass",)))),
+    "pending": P.F((P.O((("pending",), ("pass",))),)),
+    "error": P.F((P.R((P.S(("error",)),)),)),
+    "abort": P.F((P.S(("abort",)), P.S(("pass",)))),
+    "skip": P.F((P.S(("skip", "pass")), P.S(("pass",)))),
+}
+REUSE_BAD = {"undef", "fail", "pending", "error", "abort"}
+
+
+def reuse_case(case):
+    """case = (cfgname, sequence of feature keys): ONE ModelRunner runs the feature sets one after the other through
+    run_model(features=...); every verdict must be the verdict the same features get from a fresh runner"""
+    import io, sys
+    cfgname, seq = case
+    m = harness._imp()
+    harness.reset_globals()
+    cfgd = runcases.CFGS[cfgname]
+
+    def step_impl_factory():
+        def impl(ctx, n, kind):
+            if kind == "fail":
+                assert False, "boom"
+            if kind == "error":
+                raise RuntimeError("x")
+            if kind == "pending":
+                raise m["StepNotImplementedError"]("p")
+            if kind == "skip":
+                ctx.scenario.skip()
+            if kind == "abort":
+                ctx.abort()
+        return impl
+
+    def new_runner():
+        config = m["Configuration"](harness.config_args(cfgd) + ["--no-summary"], load_config=False)
+        reg = m["StepRegistry"]()
+        m["matchers"].use_step_matcher("parse")
+        reg.add_step_definition("step", "step {n:d} {kind:w}", step_impl_factory())
+        runner = m["ModelRunner"](config, [], step_registry=reg)
+        runner.hooks = {}
+        runner.formatters = []
+        return runner
+
+    def feats_of(key):
+        text, meta = P.render(REUSE_FEATURES[key], 0)
+        return [m["parse_feature"](text, filename="r_%s.feature" % key)]
+
+    old = sys.stdout, sys.stderr
+    sys.stdout, sys.stderr = io.StringIO(), io.StringIO()
+    v, got = [], []
+    try:
+        shared = new_runner()
+        for i, key in enumerate(seq):
+            try:
+                r_shared = bool(shared.run_model(features=feats_of(key)))
+            except BaseException as e:      # noqa
+                r_shared = "raises:" + type(e).__name__
+            try:
+                r_fresh = bool(new_runner().run_model(features=feats_of(key)))
+            except BaseException as e:      # noqa
+                r_fresh = "raises:" + type(e).__name__
+            got.append((key, r_shared, r_fresh))
+            want = (key in REUSE_BAD and not (cfgd.get("dry") and key != "undef")) if isinstance(r_fresh, bool) else None
+            if r_shared != r_fresh:
+                v.append(({"subcheck": "runner-reuse", "clause": "false-red" if r_shared is True else "false-green"
+                           if r_shared is False else "raises", "earlier": "+".join(sorted(set(seq[:i]))) or "none",
+                           "config": cfgname},
+                          "run #%d (%s) on a runner that already ran %r reports failed=%r, a fresh runner reports %r"
+                          % (i + 1, key, seq[:i], r_shared, r_fresh)))
+                break
+            if want is not None and r_fresh != want and not cfgd.get("dry"):
+                v.append(({"subcheck": "runner-reuse", "clause": "fresh-verdict", "features": key, "config": cfgname},
+                          "fresh runner on %s reports failed=%r, expected %r" % (key, r_fresh, want)))
+                break
+    finally:
+        sys.stdout, sys.stderr = old
+    return {"v": v, "nt": digest(case) if len(set(seq)) > 1 else None, "out": ("reuse", cfgname, tuple(g[1] for g in got)),
+            "dg": got}
+
+
+def reuse_cases(tier):
+    import itertools
+    keys = sorted(REUSE_FEATURES)
+    for cfgname in ("default", "stop", "dry"):
+        for n in ((2,) if tier == "quick" else (2, 3)):
+            for seq in itertools.product(keys, repeat=n):
+                if "abort" in seq[:-1]:
+                    continue    # a runner whose run was aborted stays aborted (runner.aborted): reuse afterwards is not stated
+                yield (cfgname, seq)
 
 
 # ---- exit code of main() / python -m behave on real files -------------------------------------------
@@ -183,6 +278,8 @@ def run(ctx):
               name="exception classes around every except clause of Step.run, with and without @wip")
     ctx.sweep(run_case, runcases.combo_cases(ctx.tier), chunk=48,
               name="combinations of --stop / --dry-run / --wip / continue_after_failed_step / --tags")
+    ctx.sweep(reuse_case, reuse_cases(ctx.tier), chunk=16,
+              name="one ModelRunner object, several run_model(features=...) calls")
     ctx.sweep(main_exit_case, exit_cases(ctx.tier), chunk=2, name="exit code of main()/python -m behave")
     classes = set(k[0] for k in ctx.nt if k and isinstance(k, tuple))
     for need in ("fail:step:s", "fail:step:bg", "fail:step:o", "fail:step:s@rule", "fail:step:o@rule", "fail:step:bg@rule",
